@@ -717,8 +717,11 @@ def check_type_sources(fail, q, f, decl, safe, opts, is_ctor, warnings):
         fail("C14", f"{q}: a type discrepancy warning is logged although warnings are disabled", decl=q)
     if warn and must_warn and not mine:
         fail("C14", f"{q}: hint and docstring type of a parameter differ but no warning is logged", decl=q)
-    if warn and mine and explicit_doc_type and not must_warn and not fallback_here and len(got) == len(params) and \
-            all(p.get("doc_type") is None or (p["ann"] is not None and
+    # variadic parameters are not judged (the hint of `*a: int` / `**k: int` is rendered as a list / map type, the docstring
+    # describes one element): a documented variadic parameter may or may not raise the warning
+    documented_vararg = any("VARARG" in p["kind"] and p.get("doc_type") for p in params)
+    if warn and mine and explicit_doc_type and not must_warn and not fallback_here and not documented_vararg and \
+            len(got) == len(params) and all(p.get("doc_type") is None or (p["ann"] is not None and
                                                 canon_api_type(expected_api_type(p["ann"])) == canon_api_type(expected_api_type(p["doc_type"][0])))
                 for p in params):
         fail("C14", f"{q}: a parameter type warning is logged although every documented parameter type equals its hint", decl=q)
